@@ -135,7 +135,8 @@ LcInitVals(kind) ==
 \* note: file-size-sensitive values are kept below 2^32 here so that both widths can carry them;
 \* they are stored at the width of the moment they are read back (reload)
 LcFields(kind) ==
-  CASE kind \in {"tc", "tm"} -> {"data"}
+  CASE kind = "tc" -> {"data", "apid", "seq"}
+    [] kind = "tm" -> {"data", "apid"}
     [] kind = "eof" -> {"fault"}
     [] kind = "finished" -> {"fault", "responses"}
     [] kind = "metadata" -> {"options", "srcname", "dstname"}
@@ -145,6 +146,8 @@ LcFields(kind) ==
     [] kind = "uslp" -> {"tfdz"}
 LcSetArgs(kind, f) ==
   CASE f \in {"data", "tfdz"} -> LcData
+    [] f = "apid" -> {0, 2047}
+    [] f = "seq" -> {1, 16383}
     [] f = "fault" -> LcFaults
     [] f = "responses" -> {<<>>, <<LcResp(0)>>, <<LcResp(2), LcResp(5)>>}
     [] f = "options" -> {<<>>, <<[t |-> 2, v |-> <<104, 105>>]>>, <<[t |-> 0, v |-> <<16, 1, 97>>], [t |-> 5, v |-> <<>>]>>}
